@@ -830,6 +830,8 @@ class Prover:
         if not self.vx.local_ty(l).startswith("alloc::vec::Vec<"):
             return None
         lo = hi = None
+        add_hi = 0
+        loops = None
         for D in self.vx.def_blocks(l):
             if D != at and at not in self.vx.reach(D):
                 continue
@@ -837,11 +839,27 @@ class Prover:
             if t["t"] != "call":
                 return None
             n = callee(t)
+            if t["dest"]["l"] != l and n in ("alloc::vec::Vec::<T, A>::extend_from_slice", "alloc::vec::Vec::<T, A>::push"):
+                # appended once (not in a loop): at most that many bytes more
+                if loops is None:
+                    loops = self.b.natural_loops()
+                if any(D in blks for blks in loops.values()):
+                    return None
+                if n.endswith("::push"):
+                    add_hi += 1
+                    continue
+                ai = self.lin_interval(len_of(self, self.vx.operand(t["args"][1], D)))
+                if ai is None:
+                    return None
+                add_hi += ai[1]
+                continue
             if t["dest"]["l"] == l and not t["dest"]["p"]:
                 if n == "alloc::vec::from_elem":
                     r = self.interval(self.vx.operand(t["args"][1], D))
-                elif n == "alloc::vec::Vec::<T>::new":
+                elif n in ("alloc::vec::Vec::<T>::new", "alloc::vec::Vec::<T>::with_capacity"):
                     r = (0, 0)
+                elif n in ("alloc::slice::<impl [T]>::to_vec", "alloc::borrow::ToOwned::to_owned") and t["args"]:
+                    r = self.lin_interval(len_of(self, self.vx.operand(t["args"][0], D)))
                 else:
                     return None
             elif n == "alloc::vec::Vec::<T, A>::resize":
@@ -858,7 +876,7 @@ class Prover:
             hi = r[1] if hi is None else max(hi, r[1])
         if lo is None:
             return None
-        return (lo, hi)
+        return (lo, hi + add_hi)
 
     def _busy_len(self, l):
         return False
@@ -1253,6 +1271,15 @@ def split_first_parts(x):
 
 
 def len_of(pr, base):
+    # `&[u8; N]` unsized to `&[u8]`: the length is N
+    b_ = base
+    while b_ and b_[0] == "ref":
+        b_ = b_[1]
+    if b_ and b_[0] == "cast" and len(b_) > 4 and str(b_[3]).startswith("PointerCoercion") and "Unsize" in str(b_[3]):
+        import re as _re
+        m = _re.match(r"^&(?:mut )?\[[A-Za-z0-9_:<>, ]+; (\d+)\]$", str(b_[4]))
+        if m:
+            return Lin(int(m.group(1)))
     return pr.lin(("call", LEN_CALLS[0], (base,), None, ()))
 
 
